@@ -187,7 +187,7 @@ def build(ctx):
             groups = [[a] for a in arms] if dynamic else [arms]
             for chunk in groups:
                 hs.append(P.Harness("%s_%s_%s_%s_cxx%s" % (sch.ns, msg.name, chunk[0][0], mode, std), c02.harness(u, g, chunk, N, 0, D), [u], unwind=G + 2,
-                                    cap=ctx.q(300, 900), backends=["minisat", "kissat"], extra_flags=["--no-standard-checks"],
+                                    cap=ctx.q(600, 1200), backends=["minisat", "kissat"], extra_flags=["--no-standard-checks"],
                                     meta={"big_loops": ["ref_walk_%s.%d" % (msg.name, x) for x in range(16)]},
                                     desc="message %s.%s: %s == length of the reference image" % (sch.ns, msg.name, [a[0] for a in chunk]),
                                     bounds={"N": N, "G": G, "D": D, "std": "c++" + std, "build": mode}))
